@@ -737,8 +737,9 @@ func parseFixtures() []pSpec {
 			{"pp", []pProd{P(rl("xx"))}},
 			{"xx", []pProd{P()}},
 		}},
-		{name: "bounds", bounds: true, tokens: []string{"A", "B", "C", "D", "E"}, maxLen: 5, rules: []pRule{
-			{"s", []pProd{P(sugar("opt", rl("x")), sugar("star", rl("y")), rl("z"), tk("D"))}},
+		{name: "bounds", bounds: true, tokens: []string{"A", "B", "C", "D", "E", "F"}, maxLen: 4, rules: []pRule{
+			{"s", []pProd{P(rl("m"), sugar("star", rl("y")), rl("z"), tk("D"))}},
+			{"m", []pProd{P(sugar("opt", rl("x")), sugar("opt", tk("F")))}},
 			{"x", []pProd{P(A)}},
 			{"y", []pProd{P(B), P(C, B)}},
 			{"z", []pProd{P(tk("E"), tk("E")), P()}},
